@@ -261,6 +261,13 @@ func (env *SpecEnv) ident(name string) (*Val, error) {
 			return env.results[i], nil
 		}
 	}
+	if gv := env.fr.ghostVarDecl(name); gv != nil {
+		hn, s, t, err := env.fr.ghostVarHeap(gv, env)
+		if err != nil {
+			return nil, err
+		}
+		return &Val{T: env.heap(hn, s), S: s, Typ: t}, nil
+	}
 	if env.li != nil {
 		if v := env.fr.loopLocal(env.li, name, env.cur); v != nil {
 			return v, nil
@@ -826,6 +833,16 @@ func (env *SpecEnv) callExpr(c *ast.CallExpr) (*Val, error) {
 			return nil, fmt.Errorf("isconst: no constants of type %s", t)
 		}
 		return boolVal(or(alts...)), nil
+	case "done":
+		// done(ctx): this goroutine has observed ctx to be done (monotone)
+		a, err := arg(0)
+		if err != nil {
+			return nil, err
+		}
+		if a.S != SIface {
+			return nil, fmt.Errorf("done: not a context")
+		}
+		return boolVal(sel(env.heap(ctxDoneHeap, ctxDoneSort), a.T)), nil
 	case "lockid":
 		mu, err := arg(0)
 		if err != nil {
